@@ -19,7 +19,13 @@ use lightning_signer::bitcoin::sighash::{EcdsaSighashType, SighashCache};
 use lightning_signer::bitcoin::transaction::Version;
 use lightning_signer::bitcoin::{Amount, OutPoint, ScriptBuf, Sequence, Transaction, TxIn, TxOut, Txid, Witness};
 use lightning_signer::lightning::ln::chan_utils::{build_htlc_transaction, get_htlc_redeemscript, get_revokeable_redeemscript, HTLCOutputInCommitment, TxCreationKeys};
+use lightning_signer::bitcoin::bip32::Fingerprint;
+use lightning_signer::bitcoin::psbt::Psbt;
 use serde::{Deserialize, Serialize};
+use vls_protocol::model::{DisclosedSecret, PubKey};
+use vls_protocol::msgs::{self, Message};
+use vls_protocol::psbt::PsbtWrapper;
+use vls_protocol::serde_bolt::{Octets, WithSize};
 use serde_json::{json, Value};
 use std::collections::BTreeSet;
 
@@ -64,6 +70,11 @@ pub struct Sweep {
     /// the policy demotes the tag families that no sweep / HTLC-transaction rule reports under
     #[serde(default)]
     pub filtered: bool,
+    /// the request travels as the protocol message (per-channel message for a single input, the
+    /// SignAny* message with an input index otherwise) through the real handler, with the amount,
+    /// the wallet path and the input index taken from the PSBT / message as in production
+    #[serde(default)]
+    pub wire: bool,
 }
 
 struct Ctx {
@@ -164,6 +175,43 @@ fn sweep_reference(s: &Sweep, delay: u16) -> Result<(), String> {
     Ok(())
 }
 
+/// PSBT as the node sends it next to a sweep: the spent output on the signed input, and the wallet
+/// derivation path (if any) on the outputs
+fn sweep_psbt(tx: &Transaction, idx: usize, rs: &ScriptBuf, amount: u64, first_out_path: Option<u32>) -> Psbt {
+    let mut psbt = Psbt::from_unsigned_tx(tx.clone()).expect("psbt");
+    for (i, inp) in psbt.inputs.iter_mut().enumerate() {
+        // the other input spends something unrelated
+        let (v, sc) = if i == idx { (amount, rs.to_p2wsh()) } else { (77_000, foreign_script(7)) };
+        inp.witness_utxo = Some(TxOut { value: Amount::from_sat(v), script_pubkey: sc });
+    }
+    if let Some(p) = first_out_path {
+        let pk = PublicKey::from_secret_key(&secp(), &sk(99));
+        for o in psbt.outputs.iter_mut() {
+            o.bip32_derivation.insert(pk, (Fingerprint::default(), wallet_path(p)));
+        }
+    }
+    psbt
+}
+
+fn wire_sig(o: Outcome<Message>, want_sighash: Option<EcdsaSighashType>) -> Outcome<lightning_signer::bitcoin::secp256k1::ecdsa::Signature> {
+    match o {
+        Outcome::Ok(Message::SignTxReply(r)) => {
+            if let Some(t) = want_sighash {
+                if r.signature.sighash != t as u8 {
+                    return Outcome::Err(format!("wire-reply-sighash-type:{}", r.signature.sighash));
+                }
+            }
+            match sig_from_wire(&r.signature) {
+                Some(s) => Outcome::Ok(s),
+                None => Outcome::Err("wire-reply-signature-unparsable".into()),
+            }
+        }
+        Outcome::Ok(_) => Outcome::Err("wire-reply-of-another-type".into()),
+        Outcome::Err(e) => Outcome::Err(e),
+        Outcome::Panic(p) => Outcome::Panic(p),
+    }
+}
+
 fn run_sweep(ctx: &Ctx, s: &Sweep) -> (String, Option<(String, String)>) {
     let ch = &ctx.ch;
     let w = &ch.w;
@@ -203,21 +251,60 @@ fn run_sweep(ctx: &Ctx, s: &Sweep) -> (String, Option<(String, String)>) {
             let rs = get_revokeable_redeemscript(&hkeys.revocation_key, ch.setup.counterparty_selected_contest_delay, &hkeys.broadcaster_delayed_payment_key);
             swept_rs = rs.clone();
             let (tx2, wp2) = (tx.clone(), wp.clone());
-            w.with_chan(DBID, move |c| c.sign_delayed_sweep(&tx2, idx, n, &rs, AMOUNT, &wp2))
+            if s.wire {
+                let psbt = WithSize(PsbtWrapper { inner: sweep_psbt(&tx, idx, &rs, AMOUNT, Some(5)) });
+                let (txw, ws) = (WithSize(tx.clone()), Octets(rs.to_bytes()));
+                wire_sig(
+                    if s.other.is_none() {
+                        w.chan_msg(DBID, Message::SignDelayedPaymentToUs(msgs::SignDelayedPaymentToUs { commitment_number: n, tx: txw, psbt, wscript: ws }))
+                    } else {
+                        w.root_msg(Message::SignAnyDelayedPaymentToUs(msgs::SignAnyDelayedPaymentToUs { commitment_number: n, tx: txw, psbt, wscript: ws, input: idx as u32, peer_id: PubKey(w.peer_id()), dbid: DBID }))
+                    },
+                    Some(EcdsaSighashType::All),
+                )
+            } else {
+                w.with_chan(DBID, move |c| c.sign_delayed_sweep(&tx2, idx, n, &rs, AMOUNT, &wp2))
+            }
         }
         SweepK::CpHtlcOffered | SweepK::CpHtlcReceived => {
             let htlc = HTLCOutputInCommitment { offered: s.kind == SweepK::CpHtlcOffered, amount_msat: AMOUNT * 1000, cltv_expiry: CLTV, payment_hash: pay_hash(1), transaction_output_index: Some(0) };
             let rs = get_htlc_redeemscript(&htlc, &features, &ckeys);
             swept_rs = rs.clone();
             let (tx2, wp2) = (tx.clone(), wp.clone());
-            w.with_chan(DBID, move |c| c.sign_counterparty_htlc_sweep(&tx2, idx, &cp_point, &rs, AMOUNT, &wp2))
+            if s.wire {
+                let psbt = WithSize(PsbtWrapper { inner: sweep_psbt(&tx, idx, &rs, AMOUNT, Some(5)) });
+                let (txw, ws, pt) = (WithSize(tx.clone()), Octets(rs.to_bytes()), PubKey(cp_point.serialize()));
+                wire_sig(
+                    if s.other.is_none() {
+                        w.chan_msg(DBID, Message::SignRemoteHtlcToUs(msgs::SignRemoteHtlcToUs { remote_per_commitment_point: pt, tx: txw, psbt, wscript: ws, option_anchors: s.anchors }))
+                    } else {
+                        w.root_msg(Message::SignAnyRemoteHtlcToUs(msgs::SignAnyRemoteHtlcToUs { remote_per_commitment_point: pt, tx: txw, psbt, wscript: ws, option_anchors: s.anchors, input: idx as u32, peer_id: PubKey(w.peer_id()), dbid: DBID }))
+                    },
+                    Some(EcdsaSighashType::All),
+                )
+            } else {
+                w.with_chan(DBID, move |c| c.sign_counterparty_htlc_sweep(&tx2, idx, &cp_point, &rs, AMOUNT, &wp2))
+            }
         }
         SweepK::Justice => {
             let rs = get_revokeable_redeemscript(&ckeys.revocation_key, ch.setup.holder_selected_contest_delay, &ckeys.broadcaster_delayed_payment_key);
             swept_rs = rs.clone();
             let secret = ch.cp.secret(n);
             let (tx2, wp2) = (tx.clone(), wp.clone());
-            w.with_chan(DBID, move |c| c.sign_justice_sweep(&tx2, idx, &secret, &rs, AMOUNT, &wp2))
+            if s.wire {
+                let psbt = WithSize(PsbtWrapper { inner: sweep_psbt(&tx, idx, &rs, AMOUNT, Some(5)) });
+                let (txw, ws, sec) = (WithSize(tx.clone()), Octets(rs.to_bytes()), DisclosedSecret(secret.secret_bytes()));
+                wire_sig(
+                    if s.other.is_none() {
+                        w.chan_msg(DBID, Message::SignPenaltyToUs(msgs::SignPenaltyToUs { revocation_secret: sec, tx: txw, psbt, wscript: ws }))
+                    } else {
+                        w.root_msg(Message::SignAnyPenaltyToUs(msgs::SignAnyPenaltyToUs { revocation_secret: sec, tx: txw, psbt, wscript: ws, input: idx as u32, peer_id: PubKey(w.peer_id()), dbid: DBID }))
+                    },
+                    Some(EcdsaSighashType::All),
+                )
+            } else {
+                w.with_chan(DBID, move |c| c.sign_justice_sweep(&tx2, idx, &secret, &rs, AMOUNT, &wp2))
+            }
         }
     };
     let refr = sweep_reference(s, ch.setup.counterparty_selected_contest_delay);
@@ -283,11 +370,16 @@ fn sweeps(tier: Tier) -> Vec<Sweep> {
                                 if tier == Tier::Quick && version != 2 && o != OutP::Wallet {
                                     continue;
                                 }
-                                v.push(Sweep { anchors, kind, version, locktime, seq, other: *other, outs: o, onchain: false, filtered: false });
+                                v.push(Sweep { anchors, kind, version, locktime, seq, other: *other, outs: o, onchain: false, filtered: false, wire: false });
+                                // every sweep also as the protocol message through the handler (quick:
+                                // single-input ones and the two-input ones with the signed input second)
+                                if tier == Tier::Thorough || other.is_none() || matches!(other, Some((_, 1))) {
+                                    v.push(Sweep { anchors, kind, version, locktime, seq, other: *other, outs: o, onchain: false, filtered: false, wire: true });
+                                }
                                 if other.is_none() {
                                     // single-input sweeps once more under the chain-aware validator
-                                    v.push(Sweep { anchors, kind, version, locktime, seq, other: *other, outs: o, onchain: true, filtered: false });
-                                    v.push(Sweep { anchors, kind, version, locktime, seq, other: *other, outs: o, onchain: false, filtered: true });
+                                    v.push(Sweep { anchors, kind, version, locktime, seq, other: *other, outs: o, onchain: true, filtered: false, wire: false });
+                                    v.push(Sweep { anchors, kind, version, locktime, seq, other: *other, outs: o, onchain: false, filtered: true, wire: false });
                                 }
                             }
                         }
@@ -341,6 +433,10 @@ pub struct HCase {
     /// the policy demotes the tag families that no sweep / HTLC-transaction rule reports under
     #[serde(default)]
     pub filtered: bool,
+    /// through the protocol messages SignLocalHtlcTx / SignRemoteHtlcTx (amount and output script
+    /// taken from the PSBT by the handler)
+    #[serde(default)]
+    pub wire: bool,
 }
 
 fn hmuts() -> Vec<HMut> {
@@ -450,12 +546,46 @@ fn run_htlc(ctx: &Ctx, c: &HCase) -> (String, Option<(String, String)>) {
         }
     }
     let (tx2, rs2, ows) = (tx.clone(), redeem.clone(), out_ws.clone());
-    let o = if c.counterparty {
-        w.with_chan(DBID, move |chn| chn.sign_counterparty_htlc_tx(&tx2, &point, &rs2, amount, &ows))
+    struct Ts {
+        sig: lightning_signer::bitcoin::secp256k1::ecdsa::Signature,
+        typ: EcdsaSighashType,
+    }
+    let o: Outcome<Ts> = if c.wire {
+        let mut psbt = Psbt::from_unsigned_tx(tx.clone()).expect("psbt");
+        psbt.inputs[0].witness_utxo = Some(TxOut { value: Amount::from_sat(amount), script_pubkey: redeem.to_p2wsh() });
+        for i in psbt.inputs.iter_mut().skip(1) {
+            i.witness_utxo = Some(TxOut { value: Amount::from_sat(77_000), script_pubkey: foreign_script(7) });
+        }
+        psbt.outputs[0].witness_script = Some(out_ws.clone());
+        let (txw, pw, ws) = (WithSize(tx.clone()), WithSize(PsbtWrapper { inner: psbt }), Octets(redeem.to_bytes()));
+        let r = if c.counterparty {
+            w.chan_msg(DBID, Message::SignRemoteHtlcTx(msgs::SignRemoteHtlcTx { tx: txw, psbt: pw, wscript: ws, remote_per_commitment_point: PubKey(point.serialize()), option_anchors: c.anchors }))
+        } else {
+            w.chan_msg(DBID, Message::SignLocalHtlcTx(msgs::SignLocalHtlcTx { commitment_number: n, tx: txw, psbt: pw, wscript: ws, option_anchors: c.anchors }))
+        };
+        match r {
+            Outcome::Ok(Message::SignTxReply(r)) => match (sig_from_wire(&r.signature), EcdsaSighashType::from_standard(r.signature.sighash as u32)) {
+                (Some(sig), Ok(typ)) => Outcome::Ok(Ts { sig, typ }),
+                _ => Outcome::Err("wire-reply-unparsable".into()),
+            },
+            Outcome::Ok(_) => Outcome::Err("wire-reply-of-another-type".into()),
+            Outcome::Err(e) => Outcome::Err(e),
+            Outcome::Panic(p) => Outcome::Panic(p),
+        }
+    } else if c.counterparty {
+        match w.with_chan(DBID, move |chn| chn.sign_counterparty_htlc_tx(&tx2, &point, &rs2, amount, &ows)) {
+            Outcome::Ok(t) => Outcome::Ok(Ts { sig: t.sig, typ: t.typ }),
+            Outcome::Err(e) => Outcome::Err(e),
+            Outcome::Panic(p) => Outcome::Panic(p),
+        }
     } else {
         // with an explicit point only when it deviates
         let op = if other_point { Some(point) } else { None };
-        w.with_chan(DBID, move |chn| chn.sign_holder_htlc_tx(&tx2, n, op, &rs2, amount, &ows))
+        match w.with_chan(DBID, move |chn| chn.sign_holder_htlc_tx(&tx2, n, op, &rs2, amount, &ows)) {
+            Outcome::Ok(t) => Outcome::Ok(Ts { sig: t.sig, typ: t.typ }),
+            Outcome::Err(e) => Outcome::Err(e),
+            Outcome::Panic(p) => Outcome::Panic(p),
+        }
     };
     match o {
         Outcome::Err(e) => (format!("refused:{}", e), None),
@@ -546,9 +676,14 @@ pub fn main(tier: Tier) -> i32 {
             for offered in [false, true] {
                 for s in dev_sets(ms.len(), tier.pick(1, 2)) {
                     for onchain in [false, true] {
-                        hc.push(HCase { anchors, counterparty, offered, muts: s.iter().map(|i| ms[*i].clone()).collect(), onchain, filtered: false });
+                        hc.push(HCase { anchors, counterparty, offered, muts: s.iter().map(|i| ms[*i].clone()).collect(), onchain, filtered: false, wire: false });
                         if !onchain {
-                            hc.push(HCase { anchors, counterparty, offered, muts: s.iter().map(|i| ms[*i].clone()).collect(), onchain, filtered: true });
+                            hc.push(HCase { anchors, counterparty, offered, muts: s.iter().map(|i| ms[*i].clone()).collect(), onchain, filtered: true, wire: false });
+                            // through the protocol message (the holder's message carries no point)
+                            let muts: Vec<HMut> = s.iter().map(|i| ms[*i].clone()).collect();
+                            if counterparty || !muts.contains(&HMut::OtherPoint) {
+                                hc.push(HCase { anchors, counterparty, offered, muts, onchain, filtered: false, wire: true });
+                            }
                         }
                     }
                 }
@@ -572,12 +707,12 @@ pub fn main(tier: Tier) -> i32 {
             match j {
                 Job::S(s) => {
                     let (class, vio) = run_sweep(&ctxs[s.anchors as usize + 2 * s.onchain as usize + 4 * s.filtered as usize], s);
-                    out.push((format!("sweep|{:?}|{}{}|v{}|{}", s.kind, s.anchors, if s.onchain { "|onchain" } else if s.filtered { "|filtered" } else { "" }, s.version, class), class.starts_with("accepted"), vio, json!({"engine": "c09", "sweep": s})));
+                    out.push((format!("sweep|{:?}|{}{}|v{}|{}", s.kind, s.anchors, if s.onchain { "|onchain" } else if s.filtered { "|filtered" } else if s.wire { "|wire" } else { "" }, s.version, class), class.starts_with("accepted"), vio, json!({"engine": "c09", "sweep": s})));
                 }
                 Job::H(h) => {
                     let (class, vio) = run_htlc(&ctxs[h.anchors as usize + 2 * h.onchain as usize + 4 * h.filtered as usize], h);
                     let kinds: Vec<String> = h.muts.iter().map(|m| format!("{:?}", m).split('(').next().unwrap().to_string()).collect();
-                    out.push((format!("htlc|{}{}|{}|{}|{}|{}", h.anchors, if h.onchain { "|onchain" } else if h.filtered { "|filtered" } else { "" }, h.counterparty, h.offered, kinds.join("+"), class), class.starts_with("accepted"), vio, json!({"engine": "c09", "htlc": h})));
+                    out.push((format!("htlc|{}{}|{}|{}|{}|{}", h.anchors, if h.onchain { "|onchain" } else if h.filtered { "|filtered" } else if h.wire { "|wire" } else { "" }, h.counterparty, h.offered, kinds.join("+"), class), class.starts_with("accepted"), vio, json!({"engine": "c09", "htlc": h})));
                 }
             }
         }
@@ -585,6 +720,7 @@ pub fn main(tier: Tier) -> i32 {
     });
     let mut classes: BTreeSet<String> = BTreeSet::new();
     let (mut evals, mut acc, mut panics, mut base_htlc_acc, mut acc_sweeps) = (0u64, 0u64, 0u64, 0u64, 0u64);
+    let (mut wire_htlc_base_acc, mut wire_sweeps_acc) = (0u64, 0u64);
     let mut samples = vec![];
     for chunk in results {
         for (class, accepted, vio, rep) in chunk {
@@ -593,6 +729,12 @@ pub fn main(tier: Tier) -> i32 {
                 acc += 1;
                 if class.starts_with("sweep") {
                     acc_sweeps += 1;
+                    if class.contains("|wire|") {
+                        wire_sweeps_acc += 1;
+                    }
+                }
+                if class.starts_with("htlc") && class.contains("|wire|") && class.contains("||accepted") {
+                    wire_htlc_base_acc += 1;
                 }
                 if class.starts_with("htlc") && class.contains("||accepted") {
                     base_htlc_acc += 1;
@@ -616,6 +758,9 @@ pub fn main(tier: Tier) -> i32 {
     if acc_sweeps == 0 {
         run.vacuous("no sweep was signed");
     }
+    if wire_sweeps_acc == 0 || wire_htlc_base_acc < 8 {
+        run.vacuous(&format!("through the protocol messages only {} sweeps and {} of 8 unmutated HTLC transactions were signed", wire_sweeps_acc, wire_htlc_base_acc));
+    }
     run.assume("sweep envelope: every output wallet-derivable at the presented path or allowlisted; version 2; locktime a height <= max(height, HTLC expiry for a received-HTLC sweep) + 144 or a timestamp in the past; relative lock of the signed input (BIP-68 decoding) within [contest delay, +144] for delayed sweeps, [1,145] for anchor HTLC sweeps, and no relative lock at all for justice sweeps and non-anchor HTLC sweeps (nothing implies one)");
     run.assume("HTLC transactions: accepted => the supplied redeemscript is the offered / received HTLC script, the implied fee rate under BOLT-3's formula is within the policy range (0 for zero-fee HTLC channels), the transaction's sighash equals that of the BOLT-3 HTLC transaction built by the harness for the negotiated delay and keys, and the signature verifies against it under the node's HTLC key; the outpoint is taken from the request (it cannot be validated there)");
     let _ = t0;
@@ -631,6 +776,8 @@ pub fn main(tier: Tier) -> i32 {
         "accepted": acc,
         "accepted_sweeps": acc_sweeps,
         "unmutated_htlc_accepted": base_htlc_acc,
+        "accepted_sweeps_through_protocol_messages": wire_sweeps_acc,
+        "unmutated_htlc_accepted_through_protocol_messages": wire_htlc_base_acc,
         "panics": panics,
         "samples": samples,
         "rule": "sweeps: full product of the field alphabets; HTLC transactions: base x every set of <= d mutations; distinct = (request kind, type, mutation kinds / version, outcome class with the first broken clause of the reference)",
